@@ -4,6 +4,7 @@ package main
 // before descending (as its slice branch does)?
 
 import (
+	"fmt"
 	"go/ast"
 	"strings"
 )
@@ -257,4 +258,113 @@ func genPreloadSessions(o *out, cb, root map[string]*ast.File) {
 	b.WriteString("def preloadFindsChecked : List Bool := [" + strings.Join(checked, ", ") + "]\n")
 	o.facts["preloadFindsChecked"] = checked
 	o.write("PreloadSessions", b.String())
+}
+
+// ---- round 4: the shape of preload's child queries (is there a loop around the Find? on which handle?) ------------------
+//
+// preload() receives `tx` as a session handle (clone = 2: the next chain call works on a copy of the statement), but it
+// re-assigns tx from chain calls (`tx = tx.Preload(…)`, `tx = fc(tx)`, `tx = tx.Where(…)`): after any of them tx no longer
+// clones, every further `tx.Where(…)` lands in the SAME statement.  One `tx.Where(IN all keys).Find(…)` is right either way;
+// a loop around it (batches of the key list) is right only on a handle that is fresh per iteration.
+
+func init() {
+	extraGens = append(extraGens, func(o *out, pkgs map[string]map[string]*ast.File, all []funcInfo, repo string) {
+		genPreloadQuery(o, pkgs["callbacks"])
+	})
+}
+
+func genPreloadQuery(o *out, cb map[string]*ast.File) {
+	var depth []string
+	var fresh, whole []string
+	var roots []string
+	reassign := 0
+	if fd := findFunc(cb, "preload"); fd != nil {
+		var stack []ast.Node
+		ast.Inspect(fd.Body, func(x ast.Node) bool {
+			if x == nil {
+				stack = stack[:len(stack)-1]
+				return true
+			}
+			stack = append(stack, x)
+			if as, ok := x.(*ast.AssignStmt); ok && len(as.Lhs) == 1 && len(as.Rhs) == 1 && src(as.Lhs[0]) == "tx" && as.Tok.String() == "=" {
+				if _, ok := as.Rhs[0].(*ast.CallExpr); ok {
+					reassign++
+				}
+			}
+			call, ok := x.(*ast.CallExpr)
+			if !ok {
+				return true
+			}
+			sel, ok := call.Fun.(*ast.SelectorExpr)
+			if !ok || sel.Sel.Name != "Find" {
+				return true
+			}
+			d := 0
+			for _, n := range stack {
+				switch n.(type) {
+				case *ast.ForStmt, *ast.RangeStmt:
+					d++
+				}
+			}
+			depth = append(depth, fmt.Sprint(d))
+			// the receiver chain of .Find: <root>.A(…).B(…)
+			isFresh, isWhole, sawIN := false, true, false
+			var recv ast.Expr = sel.X
+			for {
+				c, ok := recv.(*ast.CallExpr)
+				if !ok {
+					break
+				}
+				s, ok := c.Fun.(*ast.SelectorExpr)
+				if !ok {
+					break
+				}
+				if s.Sel.Name == "Session" {
+					isFresh = true
+				}
+				for _, a := range c.Args {
+					ast.Inspect(a, func(y ast.Node) bool {
+						cl, ok := y.(*ast.CompositeLit)
+						if !ok || src(cl.Type) != "clause.IN" {
+							return true
+						}
+						sawIN = true
+						for _, e := range cl.Elts {
+							if kv, ok := e.(*ast.KeyValueExpr); ok && src(kv.Key) == "Values" {
+								if _, ok := kv.Value.(*ast.Ident); !ok {
+									isWhole = false
+								}
+							}
+						}
+						return true
+					})
+				}
+				recv = s.X
+			}
+			fresh = append(fresh, lbool(isFresh))
+			whole = append(whole, lbool(isWhole && sawIN))
+			roots = append(roots, src(recv))
+			return true
+		})
+	}
+	var b strings.Builder
+	b.WriteString("/-- callbacks/preload.go preload: one entry per `.Find(` call in source order (join-table query, related-table query):\n    number of for / range statements of preload that enclose the call -/\n")
+	b.WriteString("def preloadFindLoopDepth : List Nat := [" + strings.Join(depth, ", ") + "]\n\n")
+	b.WriteString("/-- … the call chain the Find hangs on passes through `.Session(` (a handle that clones its statement on the next chain call) -/\n")
+	b.WriteString("def preloadFindFreshHandle : List Bool := [" + strings.Join(fresh, ", ") + "]\n\n")
+	b.WriteString("/-- … the chain carries a `clause.IN{…, Values: v}` whose v is a plain identifier (the whole key list, not a slice of it) -/\n")
+	b.WriteString("def preloadFindWholeValues : List Bool := [" + strings.Join(whole, ", ") + "]\n\n")
+	var qroots []string
+	for _, r := range roots {
+		qroots = append(qroots, fmt.Sprintf("%q", r))
+	}
+	b.WriteString("/-- … the expression the chain starts from -/\n")
+	b.WriteString("def preloadFindRoot : List String := [" + strings.Join(qroots, ", ") + "]\n\n")
+	b.WriteString("/-- `tx = <call>` re-assignments in preload (tx.Where for polymorphic constants in both branches, tx.Preload for nested\n    paths, fc(tx) for function conditions): after any of them tx does not clone its statement on chain calls -/\n")
+	b.WriteString(fmt.Sprintf("def preloadTxReassignments : Nat := %d\n", reassign))
+	o.write("PreloadQuery", b.String())
+	o.facts["preloadFindLoopDepth"] = depth
+	o.facts["preloadFindFreshHandle"] = fresh
+	o.facts["preloadFindWholeValues"] = whole
+	o.facts["preloadTxReassignments"] = reassign
 }
